@@ -1,6 +1,9 @@
 package main
 
 import (
+	"os"
+	"path/filepath"
+
 	"k8s.io/gengo/parser"
 	"k8s.io/gengo/types"
 )
@@ -33,3 +36,21 @@ func c06sigTypes(s *types.Signature) []*types.Type {
 }
 func c06nameOf(s string) types.Name              { return parser.TcNameToName(s) }
 func c20comparable(t *types.Type) (bool, bool) { return false, false }
+
+func c05load(g *Gen, i int, path string, files map[string]string, names []string) (types.Universe, error) {
+	// a multi-file package has to come from disk (AddFileForTest type-checks after the first file)
+	d := filepath.Join(os.Getenv("GOPATH"), "src", path)
+	os.MkdirAll(d, 0755)
+	defer os.RemoveAll(d)
+	for _, n := range names {
+		os.WriteFile(filepath.Join(d, n), []byte(files[n]), 0644)
+	}
+	cwd, _ := os.Getwd()
+	os.Chdir(filepath.Join(os.Getenv("GOPATH"), "src"))
+	defer os.Chdir(cwd)
+	b := parser.New()
+	if err := b.AddDir(path); err != nil {
+		return nil, err
+	}
+	return b.FindTypes()
+}
